@@ -219,3 +219,53 @@ func typesOf(ms []hz.RMsg) string {
 	}
 	return sb.String()
 }
+
+// bringReused is bring() for the outbound direction on a *reused* FSM object:
+// a first outbound session is established and ended by a TCP close (no
+// damping), the same fsm dials again, and that second connection is brought
+// to state st.
+func bringReused(w *hz.World, ps hz.PeerSpec, st string, hold uint16) *sess {
+	ps.IdleHold = time.Second
+	ndial := 0
+	w.DialPolicy = func(hz.DialReq) (hz.DialAction, time.Duration) {
+		ndial++
+		if ndial <= 2 {
+			return hz.DialAccept, 0
+		}
+		return hz.DialRefuse, 0
+	}
+	mon := w.MustAddPeer(ps)
+	c1 := w.WaitOut(1, time.Minute)
+	if c1 == nil || !c1.Handshake(ps.RemoteAS, hold, remoteIDu) {
+		w.Violate("reuse setup: first outbound session failed")
+		return nil
+	}
+	w.Settle()
+	c1.Close()
+	c2 := w.WaitOut(2, time.Minute)
+	if c2 == nil {
+		w.Violate("reuse setup: no second outbound connection after the first session ended by a TCP close")
+		return nil
+	}
+	w.Settle()
+	s := &sess{w: w, mon: mon, rc: c2, ps: ps, dir: "out"}
+	if ms := c2.Msgs(); len(ms) != 1 || ms[0].Type != wire.TypeOpen {
+		w.Violate("reuse setup: second connection did not start with an OPEN: %s", typesOf(ms))
+		return nil
+	}
+	if st == stOpenSent {
+		return s
+	}
+	c2.SendOpen(c2.StdOpen(ps.RemoteAS, hold, remoteIDu))
+	w.Settle()
+	if st == stOpenConfirm {
+		return s
+	}
+	c2.SendKeepalive()
+	w.Settle()
+	if !mon.Up() {
+		w.Violate("reuse setup: second session did not establish")
+		return nil
+	}
+	return s
+}
